@@ -8,9 +8,9 @@
 
 namespace {
 
-enum Flavour { CO = 0, BL = 1, TRY = 2 };
+enum Flavour { CO = 0, BL = 1, TRY = 2, CB = 3 };
 enum Release { DIS = 0, DTOR = 1, AWT = 2, MOVE = 3, POOL = 4, ASSIGN = 5, SLOT = 6 };
-static const char *fl_names[] = {"co", "bl", "try"};
+static const char *fl_names[] = {"co", "bl", "try", "cb"};
 static const char *rl_names[] = {"dis", "dtor", "awt", "move", "pool", "assign", "slot"};
 
 constexpr int MAXK = 4;
@@ -87,11 +87,52 @@ static cocls::async<void> co_contender(Shared &sh, int id, int rel, int rounds) 
     sh.finished.fetch_add(1);
 }
 
+// flavour 'cb': the request is a callback registered with co_awaiter<mutex>::await_suspend(fn, ctx); when the mutex is
+// handed over the callback runs inside the previous owner's unlock(), takes the ownership with await_resume(), works and releases
+struct CbReq {
+    Shared *sh = nullptr;
+    int id = 0, rel = 0;
+    std::unique_ptr<cocls::co_awaiter<cocls::mutex>> aw;
+};
+static CbReq g_cbreq[MAXK];
+static void cb_owner_body(CbReq &r) {
+    cocls::mutex::ownership own = r.aw->await_resume();
+    if (!own) vrt_fail("mutex/grant-without-ownership", "callback of contender %d ran but await_resume() gave no ownership", r.id);
+    critical(*r.sh, r.id);
+    if (r.rel == SLOT) {
+        r.sh->slot = std::move(own);
+        r.sh->slot.release();
+    } else if (r.rel == ASSIGN)
+        own = cocls::mutex::ownership();
+    else if (r.rel == DIS)
+        own.release();
+    // DTOR: destructor releases
+    vrt_scratch()[S_DONE]++;
+    r.sh->finished.fetch_add(1);
+}
+static cocls::suspend_point<void> cb_granted(cocls::awaiter *, void *ctx) noexcept {
+    cb_owner_body(*static_cast<CbReq *>(ctx));
+    return {};
+}
+
 static void contender_thread(Shared &sh, int id, int fl, int rel, int rounds) {
     static const char *labels[] = {"c0", "c1", "c2", "c3"};
     vrt_label(labels[id]);
     int64_t *s = vrt_scratch();
-    if (fl == CO) {
+    if (fl == CB) {
+        CbReq &r = g_cbreq[id];
+        r.sh = &sh;
+        r.id = id;
+        r.rel = rel;
+        r.aw.reset(new cocls::co_awaiter<cocls::mutex>(sh.mx.lock()));
+        s[S_REQ + id] = next_seq();
+        if (r.aw->await_ready())
+            cb_owner_body(r);  // free: acquired at once
+        else if (!r.aw->await_suspend(&cb_granted, &r))
+            cb_owner_body(r);  // acquired while registering
+        else
+            s[S_PARK + id] = next_seq();  // registered: the callback runs in whoever releases
+    } else if (fl == CO) {
         co_contender(sh, id, rel, rounds).detach();
         // control is back: the coroutine either finished or is parked in the mutex
         s[S_PARK + id] = next_seq();
@@ -156,7 +197,7 @@ static void run_mx(int K, const int *fl, const int *rel, int rounds) {
     if (rounds == 1)
         for (int x = 0; x < K; x++)
             for (int y = 0; y < K; y++) {
-                if (x == y || fl[x] != CO || fl[y] == TRY) continue;
+                if (x == y || (fl[x] != CO && fl[x] != CB) || fl[y] == TRY) continue;
                 if (!s[S_PARK + x] || !s[S_REQ + y] || !s[S_GRANT + x] || !s[S_GRANT + y]) continue;
                 bool x_parked_waiting = s[S_PARK + x] < s[S_GRANT + x];  // still waiting when its thread regained control
                 if (x_parked_waiting && s[S_PARK + x] < s[S_REQ + y] && s[S_GRANT + y] < s[S_GRANT + x])
@@ -172,6 +213,7 @@ static void run_mx(int K, const int *fl, const int *rel, int rounds) {
         vrt_yield();  // a detached releaser may still be inside release(); if nobody is, this deadlocks => lost unlock
     }
     vrt_label("main");
+    for (auto &r : g_cbreq) r.aw.reset();
     sh->pool.reset();
     vrt_outcome("grants=%ld tryfail=%ld first=%d", (long)s[S_GRANTS], (long)s[S_TRYFAIL],
                 (int)(s[S_GRANT + 0] < s[S_GRANT + 1] ? 0 : 1));
@@ -219,6 +261,25 @@ VRT_REGISTER(reg_mx) {
             int fl[3] = {BL, BL, CO}, rel[3] = {st, st, st};
             run_mx(3, fl, rel, 1);
         });
+    // callback requests against every other flavour
+    for (int f1 = 0; f1 < 4; f1++)
+        for (int r0 : {DIS, DTOR, SLOT})
+            for (int r1 : {DIS, DTOR}) {
+                if (f1 == TRY && r1 != DIS) continue;
+                std::string name = std::string("mxcb_cb-") + fl_names[f1] + "_" + rl_names[r0] + "-" + rl_names[r1];
+                vrt::add(name, [=] {
+                    int fl[2] = {CB, f1}, rel[2] = {r0, r1};
+                    run_mx(2, fl, rel, 1);
+                });
+            }
+    vrt::add("mxcb3_cb-bl-co", [] {
+        int fl[3] = {CB, BL, CO}, rel[3] = {DIS, DTOR, DIS};
+        run_mx(3, fl, rel, 1);
+    });
+    vrt::add("mxcb3_cb-cb-cb", [] {
+        int fl[3] = {CB, CB, CB}, rel[3] = {DIS, DIS, DTOR};
+        run_mx(3, fl, rel, 1);
+    });
     vrt::add("mxpool_co-co-co", [] {
         int fl[3] = {CO, CO, CO}, rel[3] = {POOL, DIS, POOL};
         run_mx(3, fl, rel, 1);
